@@ -1862,16 +1862,61 @@ func ruleRetryExtensionPreserved(c *Ctx, r *Report) {
 	}
 	sort.Slice(order, func(a, b int) bool { return short(order[a]) < short(order[b]) })
 	n := 0
+	type boolCaller struct {
+		fn *ssa.Function
+		cc *ssa.Call
+	}
+	var boolCallers []boolCaller
+	// callersFail: a failure of fn leaves its callers no successful exit
+	callersFail := func(fn *ssa.Function) {
+		for _, s := range c.CallsToName(short(fn)) {
+			cc, ok := s.Call.(*ssa.Call)
+			if !ok || !inModule(s.Fn) {
+				continue
+			}
+			caller := s.Fn
+			cs := map[ssa.Instruction]bool{}
+			for _, ri := range possibleSuccessReturns(caller) {
+				cs[ri] = true
+			}
+			w := &Walk{Fn: caller, Assume: func(v ssa.Value) (Val, bool) {
+				if v == ssa.Value(cc) {
+					return vNil(false), true
+				}
+				return unknown, false
+			}}
+			w.After(cc)
+			leak := ""
+			for _, ro := range w.Returns {
+				last := len(ro.Vals) - 1
+				if cs[ro.Ret] && !(last >= 0 && ro.Vals[last].Kind == 2 && !ro.Vals[last].B) {
+					leak = c.ipos(ro.Ret)
+				}
+			}
+			r.Check(leak == "", rule, short(caller)+"->"+fn.Name(), c.ipos(cc), "a changed pinned extension fails the caller", "after "+fn.Name()+" reported a changed extension "+short(caller)+" can still succeed ("+leak+")")
+		}
+	}
 	for _, fn := range order {
 		calls := byFn[fn]
 		if len(calls) != 2 || calls[0].Call.Args[0] == calls[1].Call.Args[0] {
 			continue
 		}
 		res := fn.Signature.Results()
-		if res.Len() == 0 || !isErrorType(res.At(res.Len()-1).Type()) {
+		if res.Len() == 0 {
 			continue
 		}
-		n++
+		// the comparison may live in a helper that answers "same?" as a bool: then the helper must
+		// answer false for every differing combination, and each caller that reports an error must
+		// fail when it answers false
+		isBool := false
+		if b, ok := res.At(res.Len() - 1).Type().Underlying().(*types.Basic); ok && b.Kind() == types.Bool && res.Len() == 1 {
+			isBool = true
+		} else if !isErrorType(res.At(res.Len() - 1).Type()) {
+			continue
+		}
+		if !isBool {
+			n++
+		}
 		r.Sites += len(fn.Blocks)
 		presentOf := func(v ssa.Value) int {
 			ex, ok := v.(*ssa.Extract)
@@ -1915,6 +1960,13 @@ func ruleRetryExtensionPreserved(c *Ctx, r *Report) {
 			_ = eqSeen
 			for _, ro := range w.Returns {
 				last := len(ro.Vals) - 1
+				if isBool {
+					if !(last >= 0 && ro.Vals[last].Kind == 1 && !ro.Vals[last].B) {
+						wrong = append(wrong, fmt.Sprintf("first present=%v, second present=%v, bytes equal=%v answered as unchanged at %s", combo[0], combo[1], combo[2], c.ipos(ro.Ret)))
+						break
+					}
+					continue
+				}
 				if success[ro.Ret] && !(last >= 0 && ro.Vals[last].Kind == 2 && !ro.Vals[last].B) {
 					wrong = append(wrong, fmt.Sprintf("first present=%v, second present=%v, bytes equal=%v accepted at %s", combo[0], combo[1], combo[2], c.ipos(ro.Ret)))
 					break
@@ -1924,30 +1976,52 @@ func ruleRetryExtensionPreserved(c *Ctx, r *Report) {
 		r.Check(len(wrong) == 0, rule, short(fn), c.pos(fn.Pos()), "accepted only when present in both hellos or in neither, with equal bytes", "the pinned extension may differ between the two ClientHellos: "+strings.Join(wrong, "; ")+": the second ClientHello is not otherwise identical to the first, yet the server answers it with its ServerHello flight")
 		// callers: a failure leaves no successful exit
 		for _, s := range c.CallsToName(short(fn)) {
-			cc, ok := s.Call.(*ssa.Call)
-			if !ok || !inModule(s.Fn) {
+			if isBool {
+				cc, ok := s.Call.(*ssa.Call)
+				if !ok || !inModule(s.Fn) {
+					continue
+				}
+				cres := s.Fn.Signature.Results()
+				if cres.Len() == 0 || !isErrorType(cres.At(cres.Len()-1).Type()) {
+					r.Unk(rule, short(s.Fn)+"->"+fn.Name(), c.ipos(cc), "the answer of "+fn.Name()+" is used by a function that reports no error")
+					continue
+				}
+				n++
+				boolCallers = append(boolCallers, boolCaller{s.Fn, cc})
 				continue
 			}
-			caller := s.Fn
-			cs := map[ssa.Instruction]bool{}
-			for _, ri := range possibleSuccessReturns(caller) {
-				cs[ri] = true
+		}
+		if !isBool {
+			callersFail(fn)
+		}
+	}
+	sort.Slice(boolCallers, func(a, b int) bool { return c.ipos(boolCallers[a].cc) < c.ipos(boolCallers[b].cc) })
+	done := map[*ssa.Function]bool{}
+	for _, bc := range boolCallers {
+		caller, cc := bc.fn, bc.cc
+		r.Sites += len(caller.Blocks)
+		cs := map[ssa.Instruction]bool{}
+		for _, ri := range possibleSuccessReturns(caller) {
+			cs[ri] = true
+		}
+		w := &Walk{Fn: caller, Assume: func(v ssa.Value) (Val, bool) {
+			if v == ssa.Value(cc) {
+				return vBool(false), true
 			}
-			w := &Walk{Fn: caller, Assume: func(v ssa.Value) (Val, bool) {
-				if v == ssa.Value(cc) {
-					return vNil(false), true
-				}
-				return unknown, false
-			}}
-			w.After(cc)
-			leak := ""
-			for _, ro := range w.Returns {
-				last := len(ro.Vals) - 1
-				if cs[ro.Ret] && !(last >= 0 && ro.Vals[last].Kind == 2 && !ro.Vals[last].B) {
-					leak = c.ipos(ro.Ret)
-				}
+			return unknown, false
+		}}
+		w.After(cc)
+		leak := ""
+		for _, ro := range w.Returns {
+			last := len(ro.Vals) - 1
+			if cs[ro.Ret] && !(last >= 0 && ro.Vals[last].Kind == 2 && !ro.Vals[last].B) {
+				leak = c.ipos(ro.Ret)
 			}
-			r.Check(leak == "", rule, short(caller)+"->"+fn.Name(), c.ipos(cc), "a changed pinned extension fails the caller", "after "+fn.Name()+" reported a changed extension "+short(caller)+" can still succeed ("+leak+")")
+		}
+		r.Check(leak == "", rule, short(caller), c.ipos(cc), "accepted only when the comparison helper answers unchanged", "the pinned extension may differ between the two ClientHellos: "+short(caller)+" can succeed ("+leak+") although the comparison answered that the extension changed: the second ClientHello is not otherwise identical to the first, yet the server answers it with its ServerHello flight")
+		if !done[caller] {
+			done[caller] = true
+			callersFail(caller)
 		}
 	}
 	r.Floor(rule, n, 2)
@@ -2197,9 +2271,41 @@ func notInList(isList func(ssa.Value) bool, matched *int) func(ssa.Value) (Val, 
 				}
 				return vBool(false), true
 			}
+			// a hand-written membership helper of the module: handed the list, it answers false
+			// on every path once its own comparisons with the list's elements are false
+			if callee := x.Call.StaticCallee(); callee != nil && inModule(callee) && len(callee.Blocks) > 0 && isBoolResult(callee) {
+				for i, a := range x.Call.Args {
+					if i >= len(callee.Params) || !isList(a) {
+						continue
+					}
+					p := callee.Params[i]
+					inner := 0
+					w := &Walk{Fn: callee, Assume: notInList(func(sl ssa.Value) bool { return sl == ssa.Value(p) }, &inner)}
+					w.FromEntry()
+					allFalse := len(w.Returns) > 0 && !w.overflow
+					for _, ro := range w.Returns {
+						if !(len(ro.Vals) == 1 && ro.Vals[0].Kind == 1 && !ro.Vals[0].B) {
+							allFalse = false
+						}
+					}
+					if allFalse && inner > 0 {
+						*matched++
+						return vBool(false), true
+					}
+				}
+			}
 		}
 		return unknown, false
 	}
+}
+
+func isBoolResult(fn *ssa.Function) bool {
+	res := fn.Signature.Results()
+	if res.Len() != 1 {
+		return false
+	}
+	b, ok := res.At(0).Type().Underlying().(*types.Basic)
+	return ok && b.Kind() == types.Bool
 }
 
 // ruleALPNSelectionWasOffered (C11, C01): a flight parser that records the application protocol the
@@ -2267,20 +2373,24 @@ func ruleServerCurveWasOffered(c *Ctx, r *Report) {
 		if !ok || !inModule(s.Fn) || len(call.Call.Args) == 0 {
 			continue
 		}
-		fromPeer := false
-		for _, l := range c.Origins(call.Call.Args[0], 0) {
+		// the function that reads the group out of the peer's message (the generation itself may
+		// sit in a helper that is handed the group)
+		roots := map[*ssa.Function]bool{}
+		for _, l := range c.OriginsIP(call.Call.Args[0], 0) {
 			if o, f, _, ok := fieldLoad(l); ok && f == "NamedCurve" && strings.HasSuffix(o, "handshake.MessageServerKeyExchange") {
-				fromPeer = true
+				if in, isIn := l.(ssa.Instruction); isIn && in.Parent() != nil {
+					roots[in.Parent()] = true
+				}
 			}
 		}
-		if !fromPeer {
-			continue
+		for root := range roots {
+			if byFn[root] == nil {
+				order = append(order, root)
+			}
+			byFn[root] = append(byFn[root], call)
 		}
-		if byFn[s.Fn] == nil {
-			order = append(order, s.Fn)
-		}
-		byFn[s.Fn] = append(byFn[s.Fn], call)
 	}
+	sort.Slice(order, func(a, b int) bool { return short(order[a]) < short(order[b]) })
 	isCurveList := func(s ssa.Value) bool {
 		hasField := func(v ssa.Value) bool {
 			for _, l := range c.OriginsThrough(v, 0) {
